@@ -389,6 +389,9 @@ def draw_sched(W, allow_trace=True, walk_p=0.6, means=(3, 10, 30, 100, 300), pct
         if allow_trace and W.chance(0.6):
             trace = "all"
             sched["pct_len"] *= 8
+    if trace == "all" and W.chance(0.35):
+        # one module's lines count eightfold towards the next pre-emption
+        sched["hot"] = W.choice(["buffers.py", "channel.py", "task.py", "trigger.py", "wasyncore.py", "server.py"])
     if W.chance(0.25):
         sched["delay"] = True
     if W.chance(0.3):
